@@ -10,11 +10,11 @@
    `retr_modes`, `stor_ctx`, `stor_reply_after_ctx`, `reset_exempt`, `verb_table` and `Gen.Xfer.facts` are read
    from the generated facts of the current source.
 
-   Carved out by hypothesis (they belong to other properties): "r+b" on a MISSING file (REST n +
-   STOR new: FileNotFoundError on disk, created in memory -- C18/F6): `old` always is the content
-   of an existing file when off > 0; the restart offset being re-used by a second transfer with
-   no command in between (F14, C05): `C01_rest_survives` speaks about the command sequence the
-   client's get_stream sends, which always starts with TYPE. *)
+   Nothing is carved out any more (round 2b, repaired aioftp): REST n + STOR/APPE on a MISSING
+   file ends with 451 and creates nothing on every backend (C01_stor_missing_file; F06 repaired),
+   and a restart offset applies to exactly the next transfer command (C01_rest_applies_to_next_transfer,
+   C01_offset_applies_to_next_command_only, C01_second_transfer_starts_at_0, C01_back_to_back;
+   F14 repaired).  `old` in C01_stor_exact is the content of an EXISTING file. *)
 From Coq Require Import ZArith Bool Arith String List.
 From Coq Require Import QArith.
 From Verif Require Import Lib.Sx Lib.Facts Lib.XferFacts Model.Bytes Model.TransferBytes
@@ -191,12 +191,53 @@ Theorem C01_later_retr_sees_new_content : forall rtable vm off payload old off' 
 Proof. exact later_retr_sees_new_content. Qed.
 Print Assumptions C01_later_retr_sees_new_content.
 
-(* ---- the restart offset reaches the transfer command and only it ---- *)
-Theorem C01_rest_survives : forall hist off0 passive verb off,
+(* ---- the restart offset reaches exactly the next transfer command ----
+   ostate = (pending restart_offset, transfer_offset handed to the last transfer command);
+   verb_table / offset_handed / reset_exempt are the dispatcher's table and lists as extracted
+   from today's source (EXEMPT is empty, the offset is handed to retr / stor / appe). *)
+Theorem C01_rest_applies_to_next_transfer : forall hist s0 passive verb off,
   transfer_verb verb ->
-  offset_after verb_table reset_exempt (hist ++ get_stream_cmds passive verb off) off0 = off.
-Proof. exact gen_rest_survives. Qed.
-Print Assumptions C01_rest_survives.
+  offset_after verb_table offset_handed reset_exempt (hist ++ get_stream_cmds passive verb off) s0 = mkO 0 off.
+Proof. exact gen_rest_applies_to_next_transfer. Qed.
+Print Assumptions C01_rest_applies_to_next_transfer.
+
+(* ... and ONLY it: after any known command that follows the last REST, a transfer starts at 0 *)
+Theorem C01_offset_applies_to_next_command_only : forall hist s0 x mid verb,
+  assoc_s x verb_table <> None -> Forall not_rest mid -> transfer_verb verb ->
+  offset_after verb_table offset_handed reset_exempt (hist ++ [CVerb x] ++ mid ++ [CVerb verb]) s0 = mkO 0 0.
+Proof. exact gen_offset_applies_to_next_command_only. Qed.
+Print Assumptions C01_offset_applies_to_next_command_only.
+
+(* the second of two back-to-back transfer commands (no command in between) starts at 0 *)
+Theorem C01_second_transfer_starts_at_0 : forall hist s0 passive verb1 off1 verb2,
+  transfer_verb verb1 -> transfer_verb verb2 ->
+  offset_after verb_table offset_handed reset_exempt
+               ((hist ++ get_stream_cmds passive verb1 off1) ++ [CVerb verb2]) s0 = mkO 0 0.
+Proof. exact gen_second_transfer_starts_at_0. Qed.
+Print Assumptions C01_second_transfer_starts_at_0.
+
+Theorem C01_back_to_back : forall hist s0 n verb1 verb2,
+  transfer_verb verb1 -> transfer_verb verb2 ->
+  transfer_trace verb_table offset_handed reset_exempt [CRest n; CVerb verb1; CVerb verb2]
+                 (offset_after verb_table offset_handed reset_exempt hist s0) = [n; 0].
+Proof. exact gen_back_to_back. Qed.
+Print Assumptions C01_back_to_back.
+
+(* ---- a missing file ---- *)
+(* REST n (n > 0) + STOR/APPE on a missing path: 451, nothing created, no 226 (inner None);
+   without an offset the file is created and holds exactly the payload *)
+Theorem C01_stor_missing_file : forall verb vm off block payload reads,
+  verb_mode Gen.Xfer.facts verb = Some vm ->
+  conforming block payload reads ->
+  stor_worker_on stor_modes vm off None reads = Some (if off =? 0 then Some payload else None).
+Proof. exact gen_stor_missing. Qed.
+Print Assumptions C01_stor_missing_file.
+
+Theorem C01_stor_existing_file : forall table vm off old reads,
+  stor_worker_on table vm off (Some old) reads
+  = match stor_worker table vm off old reads with Some c => Some (Some c) | None => None end.
+Proof. exact stor_worker_on_existing. Qed.
+Print Assumptions C01_stor_existing_file.
 
 (* ---- the transfer loops as translated PROGRAMS ----
    `xf_*_prog Gen.Xfer.facts` are the bodies of stor_worker / retr_worker / upload() / download()
@@ -381,11 +422,24 @@ Example C01_reply_inside_ctx_is_stale :
   = Some ([], true).
 Proof. exact reply_inside_ctx_stale. Qed.
 
-(* what C01_rest_survives does not say (F14, recorded under C05): no reset between two transfers *)
-Example C01_offset_reused_without_reset :
-  offset_after [("rest", "rest"); ("retr", "retr")] ["retr"; "stor"; "appe"]
-               [CRest 4; CVerb "retr"; CVerb "retr"] 0 = 4.
-Proof. exact offset_reused_without_reset. Qed.
+(* the former F14 witness, REST 4; RETR; RETR: the workers now read 4, then 0 *)
+Example C01_back_to_back_witness :
+  transfer_trace [("rest", "rest"); ("retr", "retr")] ["retr"; "stor"; "appe"] []
+                 [CRest 4; CVerb "retr"; CVerb "retr"] (mkO 0 0) = [4; 0].
+Proof. exact back_to_back_trace. Qed.
+
+(* why EXEMPT must be empty: with the lists of the pre-F14 source the offset is still pending
+   when the second RETR's worker looks *)
+Example C01_exempt_list_reuses_offset :
+  o_restart (offset_after [("rest", "rest"); ("retr", "retr")] [] ["retr"; "stor"; "appe"]
+                          [CRest 4; CVerb "retr"; CVerb "retr"] (mkO 0 0)) = 4.
+Proof. exact exempt_list_reuses_offset. Qed.
+
+(* an unknown verb (502) does not consume the pending offset *)
+Example C01_unknown_verb_keeps_offset :
+  transfer_trace [("rest", "rest"); ("retr", "retr")] ["retr"; "stor"; "appe"] []
+                 [CRest 4; CVerb "noop"; CVerb "retr"] (mkO 0 0) = [4].
+Proof. exact unknown_verb_keeps_offset. Qed.
 
 (* time is not inert in the model: the same three segments read early or late give different
    read traces (same concatenation) *)
